@@ -7,8 +7,8 @@ import json
 import bindgen as G
 import bindlib as B
 
-WIDE_FEATURES = {"attr", "elem", "child", "list", "text", "ns", "nillable", "tokens", "wrapper", "sequence", "attributes", "fixed", "inherit"}
-FEAT = {"nillable": True, "tokens": True, "wrapper": True, "sequence": True, "fixed": True, "anyAttrs": True, "inherit": True}
+WIDE_FEATURES = {"attr", "elem", "child", "list", "text", "ns", "nillable", "tokens", "wrapper", "sequence", "attributes", "fixed", "inherit", "wildcard"}
+FEAT = {"nillable": True, "tokens": True, "wrapper": True, "sequence": True, "fixed": True, "anyAttrs": True, "inherit": True, "wildcard": True}
 XSI = "http://www.w3.org/2001/XMLSchema-instance"
 
 TYPING = ("out-of-claim: None inside a list that is not nillable", "out-of-claim: None where the default is not None")
@@ -21,6 +21,14 @@ MAP_KEY_XSI = "out-of-claim: key of an Attributes map in the xsi namespace (xsi:
 NOT_INSTANCE = "out-of-claim: the object is not an instance of the declared class of the field (typing)"
 TYPE_LOOKUP = "out-of-claim: xsi:type does not lead XmlContext.find_subclass from the declared class back to the class of the object"
 TYPE_NAME = "out-of-claim: class name that is not an NCName"
+WILD_ITEM = "out-of-claim: item of a list wildcard that is not an AnyElement with a name"
+WILD_NAME = "out-of-claim: generic element named like a declared element or wrapper of the class (it is that field's element)"
+WILD_NS = "out-of-claim: generic element outside the namespaces of the wildcard (typing)"
+WILD_XSI = "out-of-claim: xsi:type / xsi:nil among the attributes of a generic element (control attributes)"
+WILD_SINGLE = "out-of-claim: a wildcard field that is not a list (not in the fragments)"
+GENERIC_FORM = ("out-of-claim: generic element not in the form the parser builds (text None, a tail, white-space text next to "
+                "children): C11")
+GENERIC_ATTR = "out-of-claim: attribute value of a generic element that looks like prefix:rest or is the Clark name of a datatype (C11)"
 MAP_VALUE_DT = "out-of-claim (model): value of an Attributes map that is the Clark name of a datatype (needs the writer's prefixes)"
 
 
@@ -95,9 +103,7 @@ def regions(desc, value, ctx=None):
         local = t.split("}", 1)[1] if t.startswith("{") else t
         if not local or any(ch.isspace() or ch == ":" for ch in local) or local.startswith("{"):
             out.append(TYPE_NAME)
-        if t == var["qname"]:
-            out.append("C01-derived-element-named-as-type")
-            return
+        _ = var  # (xsi:type is written even when the element is named like the subclass: repair c01g-02)
         mc = meta_for(c, pns)
         found = find_subclass(c, t) if mc["target_qname"] != t else None
         if found != cls:
@@ -118,6 +124,50 @@ def regions(desc, value, ctx=None):
                 out.append("C01-attributes-value-prefix-rewritten")
             if v.startswith("{") and DataType.from_qname(v):
                 out.append(MAP_VALUE_DT)
+
+    def generic_form(a):
+        """`canonAny` of Bind/FN.lean"""
+        from xsdata.models.enums import DataType
+
+        if not a["qname"] or a["text"] is None or a["tail"] is not None:
+            out.append(GENERIC_FORM)
+            return
+        if a["children"] and a["text"] and not a["text"].strip():
+            out.append(GENERIC_FORM)
+        for k, v in a["attrs"]:
+            if _prefix_like(v) or (v.startswith("{") and (k == "{%s}type" % XSI or DataType.from_qname(v))):
+                out.append(GENERIC_ATTR)
+        for c in a["children"]:
+            if not (isinstance(c, dict) and "any" in c):
+                out.append(GENERIC_FORM)
+            else:
+                generic_form(c["any"])
+
+    def wild_check(meta, f, x):
+        """`wildItemOK` of Bind/FN.lean: the items of the list wildcard of a class"""
+        if not (isinstance(x, dict) and "list" in x) or meta is None:
+            out.append(WILD_SINGLE)  # (the universe is excluded as well)
+            return
+        wv = next((w for w in meta["wildcards"] if w["name"] == f["name"]), None)
+        if wv is None:
+            return
+        declared = {q for q, _ in meta["elements"]} | {k for k, _ in meta["wrappers"]}
+        for y in x["list"]:
+            if not (isinstance(y, dict) and "any" in y and y["any"]["qname"]):
+                out.append(WILD_ITEM)
+                continue
+            a = y["any"]
+            q = a["qname"]
+            if q in declared:
+                out.append(WILD_NAME)
+            if not _admits(wv["namespaces"], q):
+                out.append(WILD_NS)
+            if wv["process_contents"] != "skip" and not any(t == q for t, _ in ctx["datatypes"]) and \
+                    any(t == q and types for t, types in ctx["xsi_index"]):
+                out.append("C01-wildcard-item-named-as-class")
+            if any(k in ("{%s}type" % XSI, "{%s}nil" % XSI) for k, _ in a["attrs"]):
+                out.append(WILD_XSI)
+            generic_form(a)
 
     def cls_nillable(name):
         if name in metas:
@@ -152,7 +202,7 @@ def regions(desc, value, ctx=None):
             if typ == "Text":
                 if x is not None and not (isinstance(x, dict) and "list" in x and not x["list"]):
                     return True
-            elif typ == "Element" and not simple and emits_child(f, x):
+            elif typ in ("Element", "Wildcard") and not simple and emits_child(f, x):
                 return True
         return False
 
@@ -166,12 +216,8 @@ def regions(desc, value, ctx=None):
         cn = cls_nillable(v["obj"])
         meta = meta_for(v["obj"], pns) if ctx else None
         child_pns = _uri(meta["qname"]) if meta else None
-        if typed and has_map(v["obj"]):
-            out.append("C01-derived-class-attributes-capture-type")
-        if nl and not cn and not has_content(c, v):
-            out.append("C01-nillable-empty-object")
-        if (nl or cn) and has_map(v["obj"]) and not has_content(c, v):
-            out.append("C01-nillable-class-attributes-capture-nil")
+        _ = typed  # (an Attributes map no longer captures xsi:type: repair c01g-07)
+        _ = nl  # (the element of an object under a nillable field is not xsi:nil any more: repair c01g-03)
         for (_, x), f in zip(v["fields"], all_fields(v["obj"])):
             md = f.get("metadata", {})
             typ = _ftype(f)
@@ -196,14 +242,15 @@ def regions(desc, value, ctx=None):
                         derived(base["cls"], y["obj"], var, child_pns)
                     walk(y, nillable, child_pns, sub)
                 elif isinstance(y, dict) and "str" in y and y["str"] == "":
-                    if nillable:
-                        out.append("C01-nillable-empty-str")
-                    elif not in_list and dflt not in (None, "", "<required>"):
+                    # (under a nillable field `<a/>` without xsi:nil is "" now: repair c01g-06)
+                    if not in_list and dflt not in (None, "", "<required>"):
                         out.append("C01-empty-str-element-default")
 
             if f.get("init") is False and x != G_val(dflt):
                 out.append(FIXED)
-            if typ == "Attributes":
+            if typ == "Wildcard":
+                wild_check(meta, f, x)
+            elif typ == "Attributes":
                 map_check(v["obj"], x["attrs"])
             elif typ == "Attribute":
                 if tokens:
@@ -218,9 +265,7 @@ def regions(desc, value, ctx=None):
                         out.append("C01-attr-datatype-clark-name")
             elif typ == "Text":
                 if tokens:
-                    tok_check(x["list"])
-                    if (nl or cn) and not x["list"]:
-                        out.append("C01-nillable-class-empty-tokens-text")
+                    tok_check(x["list"])  # (an empty token text of an xsi:nil element stays []: repair c01g-08)
                 elif x is None:
                     if not (nl or cn) and dflt is not None:
                         out.append(TYPING[1])
@@ -270,19 +315,23 @@ def _seq_ok(vs):
 
 
 def ctx_expected(ctx, ns_agree):
-    """`ctxOK FEAT` on exported universes of WIDE_FEATURES: everything but the namespace chains of
-    C01-ns-chain, nillable lists of token lists (C01-nillable-token-lists-empty) and token-list or
-    wrapped vars inside a sequence group (C01-tokens-in-sequence-typeerror)"""
+    """`ctxOK FEAT` on exported universes of WIDE_FEATURES: everything but a class with a text var and
+    child elements, and token-list or wrapped vars inside a sequence group (`seqOK`)"""
     for ci in ctx["classes"]:
         for _, m in ci["metas"]:
             vs = [v for _, vv in m["elements"] for v in vv]
-            if m["text"] and vs:
+            if m["text"] and (vs or m["wildcards"]):
                 return False  # a subclass adds child elements to a class with a text var (not in the fragments)
-            if any(v["tokens"] and v["list_element"] and v["nillable"] for v in vs):
-                return False
             if not _seq_ok(vs):
                 return False
-    return ns_agree(ctx)
+            # `wildVarOK`: at most one wildcard, a plain list that `find_children` finds under its own name
+            if len(m["wildcards"]) > 1:
+                return False
+            for w in m["wildcards"]:
+                names = {q for q, _ in m["elements"]} | {k for k, _ in m["wrappers"]}
+                if not w["list_element"] or w["mixed"] or w["qname"] in names or not _admits(w["namespaces"], w["qname"]):
+                    return False
+    return True  # (no condition on the namespaces any more: repair c01g-01)
 
 
 def spoil(rng, value):
@@ -316,8 +365,41 @@ def spoil(rng, value):
                 for y in x["list"]:
                     find_maps(y)
 
+    wilds = []
+
+    def find_wilds(x):
+        if isinstance(x, dict):
+            if "obj" in x:
+                classes.add(x["obj"])
+                for kv in x["fields"]:
+                    if isinstance(kv[1], dict) and "list" in kv[1] and any(isinstance(y, dict) and "any" in y for y in kv[1]["list"]):
+                        wilds.append((x, kv[1]))
+                    find_wilds(kv[1])
+            elif "list" in x:
+                for y in x["list"]:
+                    find_wilds(y)
+
+    classes = set()
     walk(v)
     find_maps(v)
+    find_wilds(v)
+    for o, w in wilds:
+        for y in w["list"]:
+            if not (isinstance(y, dict) and "any" in y):
+                continue
+            a = y["any"]
+            r = rng.random()
+            if r < 0.2:
+                # named like a field of the object (a declared element), like a class, or in another namespace
+                a["qname"] = rng.choice([kv[0] for kv in o["fields"]] + sorted(classes) + ["{urn:zz}w1", "Leaf", "Root"])
+            elif r < 0.3:
+                a["attrs"].append([rng.choice(["{%s}nil" % XSI, "{%s}type" % XSI]), rng.choice(["true", "x"])])
+            elif r < 0.45:
+                a["text"] = rng.choice([None, " ", ""])
+            elif r < 0.5:
+                a["tail"] = rng.choice(["tl", " "])
+        if rng.random() < 0.1:
+            w["list"].append(rng.choice([None, {"str": "loose"}]))
     for leaf in leaves:
         if rng.random() < 0.25:
             leaf["str"] = rng.choice(["", "", " ", "a b", "\tq"])
@@ -330,6 +412,36 @@ def spoil(rng, value):
                               " pad ", "  "])
             if all(kv[0] != k for kv in m["attrs"]):
                 m["attrs"].append([k, val])
+    return v
+
+
+def normal_generic(value):
+    """push the generic elements of an instance into the form the parser builds (the fragment F8):
+    text "" for None, no tails, no white-space-only text next to children, plain attribute values"""
+    v = copy.deepcopy(value)
+
+    def fix(a):
+        a["text"] = a["text"] or ""
+        a["tail"] = None
+        if a["children"] and not a["text"].strip():
+            a["text"] = ""
+        a["attrs"] = [[k, x.replace(":", "-")] for k, x in a["attrs"]]
+        a["children"] = [c for c in a["children"] if isinstance(c, dict) and "any" in c]
+        for c in a["children"]:
+            fix(c["any"])
+
+    def walk(x):
+        if isinstance(x, dict):
+            if "any" in x:
+                fix(x["any"])
+            elif "obj" in x:
+                for kv in x["fields"]:
+                    walk(kv[1])
+            elif "list" in x:
+                for y in x["list"]:
+                    walk(y)
+
+    walk(v)
     return v
 
 
@@ -462,6 +574,35 @@ DERIVED_SAME_NAME = _case(
 )
 
 
+# a list wildcard among typed elements; a generic element named like a class of the context
+def _any(q, text="", tail=None, attrs=(), kids=()):
+    return {"any": {"qname": q, "text": text, "tail": tail, "attrs": [list(a) for a in attrs], "children": list(kids)}}
+
+
+def _wild_root(**md):
+    return {"classes": [_leaf, {"name": "Root", "fields": [
+        _f("a", {"opt": "str"}, NONE, type="Element"),
+        _f("w", {"list": "object"}, LIST, type="Wildcard", namespace="##any", **md),
+        _f("z", {"list": "int"}, LIST, type="Element")]}]}
+
+
+WILD_OK = _case(_wild_root(), _o("Root", a={"str": "x"}, w={"list": [
+    _any("{urn:g}p", "t", attrs=[("k", "1"), ("{urn:h}l", "a b")]),
+    _any("g", "", kids=[_any("{urn:g}h", "u"), _any("i", "", attrs=[("m", "")])])]}, z={"list": [{"int": 1}, {"int": 2}]}))
+WILD_CLASS_NAME = _case(_wild_root(), _o("Root", a=None, w={"list": [_any("Leaf")]}, z={"list": []}))
+WILD_CLASS_NAME_SKIP = _case(_wild_root(process_contents="skip"), _o("Root", a=None, w={"list": [_any("Leaf")]}, z={"list": []}))
+WILD_DECLARED_NAME = _case(_wild_root(), _o("Root", a=None, w={"list": [_any("a", "v")]}, z={"list": []}))
+WILD_TAIL = _case(_wild_root(), _o("Root", a=None, w={"list": [_any("g", tail="x")]}, z={"list": []}))
+WILD_OTHER = _case(
+    {"classes": [{"name": "Root", "meta": {"namespace": "urn:r"}, "fields": [
+        _f("w", {"list": "object"}, LIST, type="Wildcard", namespace="##other"),
+        _f("a", {"opt": "str"}, NONE, type="Element")]}]},
+    _o("Root", w={"list": [_any("{urn:g}p", "t"), _any("q", "")]}, a={"str": "x"}))
+WILD_SINGLE_CASE = _case(
+    {"classes": [{"name": "Root", "fields": [_f("w", {"opt": "object"}, NONE, type="Wildcard", namespace="##any")]}]},
+    _o("Root", w=_any("g", "t")))
+
+
 def replay(desc, value, expect):
     """(still fails on every writer x handler combination, detail)"""
     u = B.Universe(desc)
@@ -480,15 +621,13 @@ def replay(desc, value, expect):
     return all(expect(x) for x in seen), f"{xml.split('?>')[-1].strip()} -> {sorted(set(seen))}"
 
 
+# repaired by repo-patches/c01g-01 … c01g-08 (listed as `fixed: … PENDING-c01g-NN` in known_findings.json):
+# nillable-empty-object, nillable-empty-str, nillable-token-lists-empty, nillable-class-empty-tokens-text,
+# tokens-in-sequence-typeerror, nillable-class-attributes-capture-nil, derived-element-named-as-type,
+# derived-class-attributes-capture-type (and C01-ns-chain in props/c01.py); their corpus cases stay as
+# regression inputs of the correspondence and of the oracle
 FINDINGS = {
-    "C01-nillable-empty-object": lambda: replay(*EMPTY_OBJECT, lambda x: x == json.dumps({"obj": "Root", "fields": [["c", None]]})),
-    "C01-nillable-empty-str": lambda: replay(*EMPTY_STR, lambda x: x == json.dumps({"obj": "Root", "fields": [["a", None]]})),
-    "C01-nillable-token-lists-empty": lambda: replay(*TOKEN_LISTS, lambda x: '{"list": [{"list": []}]}' in x),
-    "C01-nillable-class-empty-tokens-text": lambda: replay(*EMPTY_TOKENS_TEXT, lambda x: '["v", null]' in x),
-    "C01-tokens-in-sequence-typeerror": lambda: replay(*TOKENS_IN_SEQUENCE, lambda x: x == "serialize:TypeError"),
-    "C01-nillable-class-attributes-capture-nil": lambda: replay(*NIL_IN_ATTRIBUTES, lambda x: "XMLSchema-instance}nil" in x),
     "C01-attributes-key-declared": lambda: replay(*MAP_KEY_DECLARED, lambda x: '["m", {"attrs": []}], ["k", {"int": 5}]' in x),
-    "C01-derived-element-named-as-type": lambda: replay(*DERIVED_NAMED, lambda x: x == "ParserError"),
-    "C01-derived-class-attributes-capture-type": lambda: replay(*DERIVED_MAP, lambda x: "XMLSchema-instance}type" in x),
     "C01-attributes-value-prefix-rewritten": lambda: replay(*MAP_VALUE_PREFIX, lambda x: '"{urn:q}bar"' in x),
+    "C01-wildcard-item-named-as-class": lambda: replay(*WILD_CLASS_NAME, lambda x: '["w", {"list": [{"obj": "Leaf"' in x),
 }
